@@ -29,18 +29,23 @@ def _alarm(signum, frame):
 
 
 def site(e):
-    """innermost frame inside amoco -> 'file:function'"""
+    """'file:function' of the innermost ISA-specific frame (amoco/arch/...: the setup, format or semantics function at
+    fault), followed by the innermost amoco frame when the exception comes from deeper in the library"""
     tb = traceback.extract_tb(e.__traceback__)
-    best = None
+    arch = lib = None
     for fr in tb:
+        if "/amoco/arch/" in fr.filename and not fr.filename.endswith("/arch/core.py"):
+            arch = fr
         if "/amoco/" in fr.filename:
-            best = fr
-    if best is None:
-        best = tb[-1] if tb else None
-    if best is None:
+            lib = fr
+    if lib is None:
+        lib = tb[-1] if tb else None
+    if lib is None:
         return "?"
-    fn = best.filename.split("/amoco/")[-1]
-    return "%s:%s" % (fn, best.name)
+    name = lambda fr: "%s:%s" % (fr.filename.split("/amoco/")[-1], fr.name)
+    if arch is not None and arch is not lib:
+        return name(arch) + ">" + name(lib)
+    return name(lib)
 
 
 def fills(rng, s, nrand):
@@ -158,6 +163,12 @@ def worker(args):
                 probe(head + tail)
             head = c04.spec_bytes(rs, s, e, ml)
             probe(head + bytes(rs.getrandbits(8) for _ in range(rs.choice([0, 1, ml + 2]))))
+            if name in ("x86_x86", "x64_x64"):
+                # operand-size / address-size / repeat prefixes (and REX) change operand widths: every spec is reached behind each
+                head = c04.spec_bytes(rng, s, e, ml)
+                tail = bytes(rng.getrandbits(8) for _ in range(ml))
+                for pf in ([b"\x66", b"\x67", b"\x66\x67", b"\xf3"] + ([b"\x48", b"\x41", b"\x66\x4c"] if name == "x64_x64" else [])):
+                    probe(pf + head + tail)
         rr = random.Random(seed * 101 + k)
         for _ in range(nrandom):
             probe(bytes(rr.getrandbits(8) for _ in range(rr.randrange(0, ml + 4))))
